@@ -360,14 +360,14 @@ impl Property for C19 {
         let q = tier == Tier::Quick;
         let scope = literal_scope_size();
         vec![
-            Family { name: "doubles", kind: FamilyKind::Random { cases: if q { 4_000 } else { 60_000 }, max_len: 256 } },
+            Family { name: "doubles", kind: FamilyKind::Random { cases: if q { 16_000 } else { 200_000 }, max_len: 256 } },
             Family { name: "boundaries", kind: FamilyKind::Enumerated { count: (BOUNDARY_BITS.len() + 2098 + 660) as u64, exhaustive: true } },
             Family {
                 name: "literals_enum",
                 kind: FamilyKind::Enumerated { count: if q { 300 } else { scope / 400 + 1 }, exhaustive: !q },
             },
-            Family { name: "literals_random", kind: FamilyKind::Random { cases: if q { 3_000 } else { 60_000 }, max_len: 200 } },
-            Family { name: "suffix", kind: FamilyKind::Random { cases: if q { 1_500 } else { 30_000 }, max_len: 40 } },
+            Family { name: "literals_random", kind: FamilyKind::Random { cases: if q { 12_000 } else { 200_000 }, max_len: 200 } },
+            Family { name: "suffix", kind: FamilyKind::Random { cases: if q { 6_000 } else { 100_000 }, max_len: 40 } },
         ]
     }
 
